@@ -177,6 +177,7 @@ func (w *c19world) target(g *zsim.Stream, f *zsim.Stream) *c19target {
 		// configured destination that can receive nothing, so the operation
 		// cannot succeed with it
 		t.raw = ""
+		w.c.R.Probe("empty string as a target")
 		w.c.Fault("file-open-error")
 	case tkMissingDir:
 		t.raw = pick(g, "file://", "") + filepath.Join(w.dir, "no-such-dir", name+".log")
@@ -559,6 +560,7 @@ func c19build(w *c19world) {
 	if g.Chance(3) {
 		bopts = append(bopts, zap.WrapCore(func(cc zapcore.Core) zapcore.Core { return zapcore.NewTee(c19failCore{}, cc) }))
 		c.Describe("built with WrapCore(tee(failing core, configured core))")
+		c.R.Probe("built logger extended by WrapCore with a failing core")
 		c.Fault("destination-misbehaves")
 	}
 	lg, err := cfg.Build(bopts...)
